@@ -10,7 +10,7 @@
 From Coq Require Import String.
 From Sdns Require Import Common.Base Gen.C10 C10.Model C10.ModelStream C10.ModelShare C10.ModelPool
   C10.Proofs_UdpBase C10.Proofs_UdpInv C10.Proofs_UdpThm C10.Proofs_Stream C10.Proofs_Read C10.Proofs_Share C10.Proofs_Top
-  C10.Proofs_Pool C10.ModelChains C10.Proofs_Chains C10.Proofs_Read C10.Proofs_ConnFrames C10.ModelEdns C10.Proofs_Edns C10.Proofs_UdpStep C10.Proofs_Socks C10.Proofs_Msg C10.ModelFlight C10.Proofs_Flight C10.ModelQuery C10.Proofs_Query C10.ModelWriter C10.Proofs_Writer C10.ModelWrap C10.Proofs_Wrap C10.ModelPack C10.Proofs_Pack.
+  C10.Proofs_Pool C10.ModelChains C10.Proofs_Chains C10.Proofs_Read C10.Proofs_ConnFrames C10.ModelEdns C10.Proofs_Edns C10.Proofs_UdpStep C10.Proofs_Socks C10.Proofs_Msg C10.ModelFlight C10.Proofs_Flight C10.ModelQuery C10.Proofs_Query C10.ModelWriter C10.Proofs_Writer C10.ModelWrap C10.Proofs_Wrap C10.ModelPack C10.Proofs_Pack C10.Proofs_Frame.
 Open Scope nat_scope.
 
 (* ties: the constants the proofs compute with are the source's *)
@@ -538,6 +538,16 @@ Theorem releasing_the_pack_state_before_the_write_would_leak :
 Proof. exact early_release_leaks. Qed.
 Print Assumptions releasing_the_pack_state_before_the_write_would_leak.
 
+(* tie: the frame the stream theorems are stated with is the code's.  doq.addPrefixLen (the framing of
+   every DNS-over-QUIC reply: `buf := make([]byte, 2+len(msg)); PutUint16(buf, len(msg)); copy(buf[2:], msg)`)
+   is TRANSLATED from the source (srcgen purefunc: Go slices as immutable lists, make / copy /
+   binary.BigEndian.PutUint16 of Common/GoList.v); for every message of at most 65535 octets —
+   what a 16-bit prefix can announce — it is ModelStream.frame *)
+Theorem doq_frame_is_model_frame : forall msg,
+  (N.of_nat (length msg) <= max_msg_size)%N -> go_addPrefixLen msg = frame msg.
+Proof. exact gen_addPrefixLen. Qed.
+Print Assumptions doq_frame_is_model_frame.
+
 (* ------------------------------------------------------------------ non-vacuity *)
 (* a flight that is forgotten while running, its replacement with a follower who gives up, and a
    lone late caller: 1 alone on call 0 (not shared), 2 leads call 1 and is told shared because 3
@@ -652,3 +662,9 @@ Example parked_write_example :
   psteps_strict p_init pack_example_schedule = Some s /\
   p_log s = [(3, [3]%N, [3]%N); (1, [1; 1; 1]%N, [1; 1; 1]%N); (2, [2; 2]%N, [2; 2]%N)] /\ p_live s = [].
 Proof. exact pack_example. Qed.
+
+
+(* a 300-octet DoQ reply: prefix 1, 44, then the message *)
+Example doq_frame_example :
+  firstn 3 (go_addPrefixLen (repeat 7%N 300)) = [1; 44; 7]%N /\ length (go_addPrefixLen (repeat 7%N 300)) = 302.
+Proof. exact addPrefixLen_example. Qed.
